@@ -5,6 +5,7 @@ import (
 
 	"crypto/sha256"
 	"encoding/hex"
+	"encoding/json"
 	"fmt"
 	"github.com/aptpod/iscp-go/iscp"
 	"runtime"
@@ -519,6 +520,12 @@ func (s *Sim) fill(res *RunResult) {
 		}
 		h.Write([]byte(l))
 		h.Write([]byte{'\n'})
+	}
+	if s.sample != nil {
+		// scenarios that are not driven through Step describe the case they executed in the sample
+		if b, err := json.Marshal(s.sample); err == nil {
+			h.Write(b)
+		}
 	}
 	res.Hash = hex.EncodeToString(h.Sum(nil))[:16]
 	if s.trace {
